@@ -175,6 +175,9 @@ class P:
             elif self.i < self.end and e[0] in ('if', 'match', 'block', 'opaque'):
                 lets.append(['_', e])       # block-like expression statement (`if c { return … }`)
             else:
+                if result is not None or self.i < self.end:
+                    # an expression that is neither a statement nor the tail: never drop it silently
+                    raise BodyError('expression without `;` before the end of the block')
                 result = e
         if result is None and lets and lets[-1][0] == '_':
             result = lets.pop()[1]
